@@ -207,6 +207,10 @@ func c19lRun(t *testing.T, tape *simrt.Tape, o simwork.Opts) *simwork.Result {
 	p := simwork.Bubble(t, func(t *testing.T) {
 		start := time.Now()
 		defer func() { res.SimTime = time.Since(start) }()
+		// runs last: switch the machines off, so that no goroutine of the
+		// protocol stacks (idle keep-alive connections of transports that a real
+		// process would take with it when it exits) outlives the run
+		defer simnet.CloseAll()
 		simnet.Reset()
 		c19lH2ErrChanPool = sync.Pool{New: func() any { return make(chan error, 1) }}
 		simnet.Configure(simnet.Config{Seed: uint64(c.NetSeed), MaxSegment: 2048, SmallPermil: 250, MaxLatency: 500 * time.Microsecond})
